@@ -68,9 +68,13 @@ Record Names (s : st) : Prop := {
     evaluated by the bridge driver on every generated Core workspace) *)
 Definition CohC (s : st) : Prop := log_fresh s = true -> C.Coh toks (abs s).
 
-(** ---- invariant and extension order of the logic *)
+(** ---- invariant and extension order of the logic.  [cf] is the file whose statements are being indexed, [stk] the rest of
+    the include stack; every file on the stack has been marked as indexed. *)
+Section AtFile.
+Variables (cf : N) (stk : list N).
+Definition Idx (s : st) : Prop := Forall (fun f => In f (s_indexed s)) (cf :: stk).
 Definition Inv3 (s : st) : Prop :=
-  Valid s /\ Names s /\ CohC s /\ s_trace s = [0] /\ In 0 (s_indexed s).
+  Valid s /\ Names s /\ CohC s /\ s_trace s = cf :: stk /\ Idx s.
 
 Definition stable (s s' : st) : Prop :=
   forall a, sym_ok s a -> sym_name s' a = sym_name s a /\ define_loc s' a = define_loc s a.
@@ -154,8 +158,7 @@ Proof.
 Qed.
 Lemma h3_state : forall (P : st -> Prop), h3 P state (fun x s => Inv3 x /\ ext3 x s).
 Proof. intros P. apply h3_get. intros s Hv _. split; [exact Hv|apply ext3_refl]. Qed.
-(** in a single-file workspace the current file is 0 *)
-Lemma h3_here : forall r (P : st -> Prop), h3 P (here r) (fun loc _ => loc = mkR 0 (r_lo r) (r_hi r)).
+Lemma h3_here : forall r (P : st -> Prop), h3 P (here r) (fun loc _ => loc = mkR cf (r_lo r) (r_hi r)).
 Proof.
   intros r P. apply h3_get. intros s (_ & _ & _ & Ht & _) _. unfold current_file. rewrite Ht. reflexivity.
 Qed.
@@ -331,18 +334,17 @@ Proof.
 Qed.
 
 (** a state that differs only in fields the invariant does not read, or in the scope stack *)
-Lemma inv3_frame : forall s s1, Inv3 s ->
+Lemma invc_frame : forall s s1, Valid s -> Names s -> CohC s ->
   s_recs s1 = s_recs s -> s_mcs s1 = s_mcs s -> s_leaves s1 = s_leaves s -> s_nclass s1 = s_nclass s ->
   s_ndef s1 = s_ndef s -> s_nmc s1 = s_nmc s -> s_ndset s1 = s_ndset s -> s_pos s1 = s_pos s -> s_refs s1 = s_refs s ->
-  s_trace s1 = s_trace s -> In 0 (s_indexed s1) ->
   Forall (scope_okB (nrec s) (nmc s) (nleaf s)) (s_scopes s1) -> Forall (good_scope s) (s_scopes s1) ->
-  Inv3 s1 /\ ext3 s s1.
+  (Valid s1 /\ Names s1 /\ CohC s1) /\ ext3 s s1.
 Proof.
-  intros s s1 (Hv & Hn & Hc & Ht & Hi) E1 E2 E3 E4 E5 E6 E7 E8 E9 E10 Hi1 Hsc Hgs.
+  intros s s1 Hv Hn Hc E1 E2 E3 E4 E5 E6 E7 E8 E9 Hsc Hgs.
   assert (Hext : ext3 s s1).
   { split; [unfold ext, nrec, nmc, nleaf; rewrite E1, E2, E3; lia|]. split; [apply stable_same; assumption|].
     exists []. rewrite E8. reflexivity. }
-  split; [|exact Hext]. split; [|split; [|split; [|split]]].
+  split; [|exact Hext]. split; [|split].
   - unfold Valid, nrec, nmc, nleaf in *. rewrite E1, E2, E3. destruct Hv as [V1 V2 V3 V4 V5 V6 V7 V8 V9].
     split; rewrite ?E1, ?E2, ?E4, ?E5, ?E6, ?E7, ?E8, ?E9; assumption.
   - destruct Hn as [N1 N2 N3 N4 N5 N6 N7].
@@ -354,21 +356,30 @@ Proof.
     + eapply Forall_impl; [|exact N6]. intros r [Ha Hb]. split; apply GM; assumption.
     + eapply Forall_impl; [|exact N7]. intros m Ha. apply GM; assumption.
   - eapply cohc_same_tables; eassumption.
-  - rewrite E10. exact Ht.
-  - exact Hi1.
+Qed.
+Lemma inv3_frame : forall s s1, Inv3 s ->
+  s_recs s1 = s_recs s -> s_mcs s1 = s_mcs s -> s_leaves s1 = s_leaves s -> s_nclass s1 = s_nclass s ->
+  s_ndef s1 = s_ndef s -> s_nmc s1 = s_nmc s -> s_ndset s1 = s_ndset s -> s_pos s1 = s_pos s -> s_refs s1 = s_refs s ->
+  s_trace s1 = s_trace s -> Idx s1 ->
+  Forall (scope_okB (nrec s) (nmc s) (nleaf s)) (s_scopes s1) -> Forall (good_scope s) (s_scopes s1) ->
+  Inv3 s1 /\ ext3 s s1.
+Proof.
+  intros s s1 (Hv & Hn & Hc & Ht & Hi) E1 E2 E3 E4 E5 E6 E7 E8 E9 E10 Hi1 Hsc Hgs.
+  destruct (invc_frame s s1 Hv Hn Hc E1 E2 E3 E4 E5 E6 E7 E8 E9 Hsc Hgs) as ((V & Nn & Cc) & Hext).
+  split; [|exact Hext]. split; [exact V|]. split; [exact Nn|]. split; [exact Cc|]. split; [rewrite E10; exact Ht|exact Hi1].
 Qed.
 
 Lemma h3_of_frame : forall (f : st -> st) (P : st -> Prop),
   (forall s, s_recs (f s) = s_recs s /\ s_mcs (f s) = s_mcs s /\ s_leaves (f s) = s_leaves s /\ s_nclass (f s) = s_nclass s /\
              s_ndef (f s) = s_ndef s /\ s_nmc (f s) = s_nmc s /\ s_ndset (f s) = s_ndset s /\ s_pos (f s) = s_pos s /\
              s_refs (f s) = s_refs s /\ s_scopes (f s) = s_scopes s /\ s_trace (f s) = s_trace s /\
-             (In 0 (s_indexed s) -> In 0 (s_indexed (f s)))) ->
+             (forall g, In g (s_indexed s) -> In g (s_indexed (f s)))) ->
   h3 P (upd f) anyv.
 Proof.
   intros f P H s Hinv Hp. cbn. destruct (H s) as (E1 & E2 & E3 & E4 & E5 & E6 & E7 & E8 & E9 & E10 & E11 & E12).
   pose proof Hinv as (Hv & Hn & _ & _ & Hi).
   destruct (inv3_frame s (f s) Hinv) as [H1 H2]; try assumption.
-  - apply E12. exact Hi.
+  - unfold Idx in *. eapply Forall_impl; [|exact Hi]. intros g Hg. apply E12. exact Hg.
   - rewrite E10. apply (v_scopes _ _ _ _ Hv).
   - rewrite E10. apply (n_scopes _ Hn).
   - split; [exact H1|]. split; [exact H2|intros; exact I].
@@ -394,7 +405,7 @@ Proof. intros l P HP. unfold emit. apply h3_iterM; [exact HP|]. intros x _. appl
 Lemma h3_next_anonymous : forall (P : st -> Prop), h3 P next_anonymous anyv.
 Proof. intros. apply h3_of_frame. intros s. repeat split; auto. Qed.
 Lemma h3_mark_indexed : forall f (P : st -> Prop), h3 P (upd (fun s => set_files (s_trace s) (f :: s_indexed s) s)) anyv.
-Proof. intros. apply h3_of_frame. intros s. repeat split; auto. cbn. intros H. right. exact H. Qed.
+Proof. intros. apply h3_of_frame. intros s. repeat split; auto. cbn. intros g0 H. right. exact H. Qed.
 
 (** ---- add_reference *)
 Lemma h3_add_reference : forall id loc nm (P : st -> Prop),
@@ -414,7 +425,7 @@ Proof.
                s_nmc s1 = s_nmc s /\ s_ndset s1 = s_ndset s /\ s_scopes s1 = s_scopes s).
   { unfold s1. cbn. unfold add_pos. destruct (rng_empty loc); cbn; repeat split. }
   destruct E7 as (E7 & E8 & E9 & E10 & E11 & E12 & E13).
-  split; [exact Hv1|]. split; [|split; [|split; [rewrite E7; exact Ht|rewrite E8; exact Hi]]].
+  split; [exact Hv1|]. split; [|split; [|split; [rewrite E7; exact Ht|unfold Idx in *; rewrite E8; exact Hi]]].
   - eapply Names_ext; eassumption.
   - (* coherence *)
     intros Hf. destruct (log_fresh_cons s s1 (loc, id) Hv (stable_same s s1 E1 E2 E3) E5 Hf) as [Hf0 Hhead].
@@ -533,7 +544,7 @@ Proof.
     exists loc. split; [unfold define_loc; rewrite E1; unfold nrec; rewrite nthN_app_new; reflexivity|].
     split; [exact Htok|]. rewrite E5. left. reflexivity. }
   split; [|split; [exact Hext|]].
-  - split; [exact Hv1|]. split; [|split; [|split; [rewrite E6; exact Ht|rewrite E7; exact Hi]]].
+  - split; [exact Hv1|]. split; [|split; [|split; [rewrite E6; exact Ht|unfold Idx in *; rewrite E7; exact Hi]]].
     + destruct Hn as [N1 N2 N3 N4 N5 N6 N7].
       apply (Names_build s s1 (Build_Names _ N1 N2 N3 N4 N5 N6 N7) Hext); auto.
       * destruct cls; destruct E11 as [Ea Eb]; [left|right; exact Ea]. rewrite Ea.
@@ -589,7 +600,7 @@ Proof.
   destruct E as (E1 & E2 & E3 & E4 & E5 & E6 & E7 & E8 & E9 & E10 & E11 & E12).
   destruct (leaf_alloc_core s s1 l Hinv Htok Hv1 He1 E1 E2 E3 E4 E5) as (Hext & Hnew & Hc1).
   split; [|split; [exact Hext|]].
-  - split; [exact Hv1|]. split; [|split; [exact Hc1|split; [rewrite E6; exact Ht|rewrite E7; exact Hi]]].
+  - split; [exact Hv1|]. split; [|split; [exact Hc1|split; [rewrite E6; exact Ht|unfold Idx in *; rewrite E7; exact Hi]]].
     eapply Names_ext; eassumption.
   - intros x Hx. unfold s1 in *. cbn in Hx. inversion Hx. subst x. exact Hnew.
 Qed.
@@ -609,7 +620,7 @@ Proof.
   destruct E as (E1 & E2 & E3 & E4 & E5 & E6 & E7 & E8 & E9 & E10 & E11 & E12).
   destruct (leaf_alloc_core s s1 l Hinv Htok Hv1 He1 E1 E2 E3 E4 E5) as (Hext & Hnew & Hc1).
   split; [|split; [exact Hext|]].
-  - split; [exact Hv1|]. split; [|split; [exact Hc1|split; [rewrite E6; exact Ht|rewrite E7; exact Hi]]].
+  - split; [exact Hv1|]. split; [|split; [exact Hc1|split; [rewrite E6; exact Ht|unfold Idx in *; rewrite E7; exact Hi]]].
     apply (Names_build s s1 Hn Hext); auto.
     left. rewrite E11. constructor; [exact Hnew|eapply good_map_mono; [exact Hext|apply (n_dset _ Hn)]].
   - intros x Hx. unfold s1 in *. cbn in Hx. inversion Hx. subst x. exact Hnew.
@@ -628,7 +639,7 @@ Proof.
   assert (Hst : stable s s1) by (eapply stable_app_leaves; eassumption).
   assert (Hext : ext3 s s1) by (split; [exact He1|]; split; [exact Hst|exists []; exact E5]).
   split; [|split; [exact Hext|exact Hq1]].
-  split; [exact Hv1|]. split; [eapply Names_ext; eassumption|]. split; [|split; [rewrite E6; exact Ht|rewrite E7; exact Hi]].
+  split; [exact Hv1|]. split; [eapply Names_ext; eassumption|]. split; [|split; [rewrite E6; exact Ht|unfold Idx in *; rewrite E7; exact Hi]].
   destruct (abs_append_leaf s s1 l Hv E1 E2 E3 E4) as [Hsid Hg]. cbn zeta in Hg.
   eapply (cohc_alloc_unkeyed s s1); try eassumption; try reflexivity.
   intros a Ha. eapply sid_of_leaf_app; eassumption.
@@ -647,7 +658,7 @@ Proof.
   assert (Hst : stable s s1) by (eapply stable_app_recs; eassumption).
   assert (Hext : ext3 s s1) by (split; [exact He1|]; split; [exact Hst|exists []; exact E5]).
   split; [|split; [exact Hext|exact Hq1]].
-  split; [exact Hv1|]. split; [|split; [|split; [rewrite E6; exact Ht|rewrite E7; exact Hi]]].
+  split; [exact Hv1|]. split; [|split; [|split; [rewrite E6; exact Ht|unfold Idx in *; rewrite E7; exact Hi]]].
   - apply (Names_build s s1 Hn Hext); auto. left. rewrite E1. apply Forall_app. split.
     + eapply Forall_impl; [|apply (n_recs _ Hn)]. intros r0 [Ha Hb]. split; eapply good_map_mono; eassumption.
     + constructor; [split; constructor|constructor].
@@ -677,7 +688,7 @@ Proof.
     exists loc. split; [unfold define_loc; rewrite E2; unfold nmc; rewrite nthN_app_new; reflexivity|].
     split; [exact Htok|]. rewrite E5. left. reflexivity. }
   split; [|split; [exact Hext|]].
-  - split; [exact Hv1|]. split; [|split; [|split; [rewrite E6; exact Ht|rewrite E7; exact Hi]]].
+  - split; [exact Hv1|]. split; [|split; [|split; [rewrite E6; exact Ht|unfold Idx in *; rewrite E7; exact Hi]]].
     + apply (Names_build s s1 Hn Hext); auto.
       * left. rewrite E10. constructor; [exact Hnew|eapply good_map_mono; [exact Hext|apply (n_mc _ Hn)]].
       * left. rewrite E2. apply Forall_app. split.
@@ -959,17 +970,17 @@ Proof.
     + destruct (find_defset x nm) eqn:Es; [|discriminate]. inversion E. subst. eapply find_defset_good; eassumption.
 Qed.
 
-(** `here r` in a single-file workspace *)
+(** `here r`: the range is paired with the current file *)
 Lemma h3_bind_here : forall B r (f : rng -> M B) (P : st -> Prop) Q,
-  h3 P (f (mkR 0 (r_lo r) (r_hi r))) Q -> h3 P (bind (here r) f) Q.
+  h3 P (f (mkR cf (r_lo r) (r_hi r))) Q -> h3 P (bind (here r) f) Q.
 Proof.
   intros B r f P Q H s Hinv Hp. unfold bind, here, get. cbn [fst snd].
   pose proof Hinv as (_ & _ & _ & Ht & _). unfold current_file. rewrite Ht. apply H; assumption.
 Qed.
 
-(** ---- well-formed syntax: every identifier is an identifier token (of file 0) carrying its name *)
+(** ---- well-formed syntax: every identifier is an identifier token (of the current file) carrying its name *)
 Definition id_ok (i : ident) : Prop :=
-  W.tok_name toks (SM.mkFR 0 (r_lo (i_rng i)) (r_hi (i_rng i))) = Some (i_name i).
+  W.tok_name toks (SM.mkFR cf (r_lo (i_rng i)) (r_hi (i_rng i))) = Some (i_name i).
 Fixpoint ty_ok (t : ty) : Prop :=
   match t with TyList t' => ty_ok t' | TyClass i => id_ok i | _ => True end.
 Definition suffix_ok (sf : suffix) : Prop := match sf with SufField i _ => id_ok i | _ => True end.
@@ -1449,24 +1460,84 @@ Proof.
   destruct sv; try apply h3_none. apply h3_bind_here. apply h3_ret. intros s _ _. cbn. exact Hn.
 Qed.
 
-(** single-file workspaces: [files = [root]] *)
-Lemma h3_index_stmt : forall root n x P, mono3 P -> stmt_ok x -> h3 P (index_stmt [root] n x) anyv.
+End AtFile.
+
+(** ---- automation (again: Ltac definitions are local to a section) *)
+Ltac hmono3 :=
+  repeat first
+    [ apply mono3_top | apply mono3_snap | apply mono3_good | apply mono3_kind_good | apply mono3_and
+    | apply mono3_lt_nrec | apply mono3_lt_nmc | apply mono3_lt_nleaf | apply mono3_anyv | apply mono3_pure
+    | apply mono3_opt; intros ? | assumption
+    | (intros ? ? ? ?; exact I) ].
+Ltac destr_conj := repeat match goal with H : _ /\ _ |- _ => destruct H end.
+Ltac hret3 := apply h3_ret; intros; exact I.
+
+(** ---- `include`: mark the file, push it, index its statements as the current file, pop *)
+Lemma pop_file_eq : forall s2 g l, s_trace s2 = g :: l -> pop_file s2 = (Some tt, set_files l (s_indexed s2) s2).
+Proof. intros s2 g l H. unfold pop_file. rewrite H. reflexivity. Qed.
+
+Lemma h3_push_body_pop : forall cf stk g (mb : M unit),
+  h3 g (cf :: stk) top mb anyv ->
+  h3 cf stk (fun s => In g (s_indexed s)) (seq (push_file g) (seq mb pop_file)) anyv.
 Proof.
-  intros root n. induction n as [|n IH]; intros x P HP Hok; [apply h3_bad|].
-  assert (Hl : forall l P0, mono3 P0 -> Forall stmt_ok l -> h3 P0 (iterM (index_stmt [root] n) l) anyv).
-  { intros l P0 HP0 Hall. apply h3_iterM; [exact HP0|]. intros y Hy. apply IH; [exact HP0|]. rewrite Forall_forall in Hall. apply Hall. exact Hy. }
+  intros cf stk g mb Hm s0 (Hv0 & Hn0 & Hc0 & Ht0 & Hi0) Hg0.
+  set (s1 := set_files (g :: s_trace s0) (s_indexed s0) s0).
+  change (seq (push_file g) (seq mb pop_file) s0) with (pop_file (snd (mb s1))).
+  destruct (invc_frame s0 s1 Hv0 Hn0 Hc0) as ((Hv1 & Hn1 & Hc1) & He1); try reflexivity.
+  { apply (v_scopes _ _ _ _ Hv0). }
+  { apply (n_scopes _ Hn0). }
+  assert (Hinv1 : Inv3 g (cf :: stk) s1).
+  { split; [exact Hv1|]. split; [exact Hn1|]. split; [exact Hc1|].
+    split; [change (g :: s_trace s0 = g :: cf :: stk); rewrite Ht0; reflexivity|].
+    unfold Idx in *. constructor; [exact Hg0|exact Hi0]. }
+  destruct (Hm s1 Hinv1 I) as ((Hv2 & Hn2 & Hc2 & Ht2 & Hi2) & He2 & _).
+  rewrite (pop_file_eq _ _ _ Ht2). cbn [fst snd].
+  destruct (invc_frame (snd (mb s1)) (set_files (cf :: stk) (s_indexed (snd (mb s1))) (snd (mb s1))) Hv2 Hn2 Hc2)
+    as ((Hv3 & Hn3 & Hc3) & He3); try reflexivity.
+  { apply (v_scopes _ _ _ _ Hv2). }
+  { apply (n_scopes _ Hn2). }
+  split; [|split; [|intros; exact I]].
+  - split; [exact Hv3|]. split; [exact Hn3|]. split; [exact Hc3|]. split; [reflexivity|].
+    unfold Idx in *. inversion Hi2; assumption.
+  - eapply ext3_trans; [exact He1|]. eapply ext3_trans; [exact He2|exact He3].
+Qed.
+
+Lemma h3_include : forall cf stk g (o : option (list stmt)) (m : list stmt -> M unit) (P : st -> Prop),
+  (forall body, o = Some body -> h3 g (cf :: stk) top (m body) anyv) ->
+  h3 cf stk P (seq (upd (fun s => set_files (s_trace s) (g :: s_indexed s) s))
+                   (bind (lift o) (fun body => seq (push_file g) (seq (m body) pop_file)))) anyv.
+Proof.
+  intros cf stk g o m P Hm s Hinv Hp.
+  destruct (h3_mark_indexed cf stk g P s Hinv Hp) as (Hinv0 & He0 & _).
+  set (F := fun body => seq (push_file g) (seq (m body) pop_file)).
+  set (s0 := snd (upd (fun s => set_files (s_trace s) (g :: s_indexed s) s) s)) in *.
+  change (seq (upd (fun s => set_files (s_trace s) (g :: s_indexed s) s)) (bind (lift o) F) s) with (bind (lift o) F s0).
+  assert (Hg0 : In g (s_indexed s0)) by (left; reflexivity).
+  destruct o as [body|].
+  - change (bind (lift (Some body)) F s0) with (seq (push_file g) (seq (m body) pop_file) s0).
+    destruct (h3_push_body_pop cf stk g (m body) (Hm body eq_refl) s0 Hinv0 Hg0) as (H1 & H2 & _).
+    split; [exact H1|]. split; [eapply ext3_trans; [exact He0|exact H2]|intros; exact I].
+  - change (bind (lift None) F s0) with (@None unit, s0). cbn [fst snd].
+    split; [exact Hinv0|]. split; [exact He0|]. intros y Hy; discriminate.
+Qed.
+
+(** ---- statements; [files_ok]: the identifiers of file g are identifier tokens OF FILE g *)
+Section Stmts.
+Variable files : list (list stmt).
+Hypothesis files_ok : forall g body, nthN files g = Some body -> Forall (stmt_ok g) body.
+
+Lemma h3_index_stmt : forall n cf stk x P, mono3 P -> stmt_ok cf x -> h3 cf stk P (index_stmt files n x) anyv.
+Proof.
+  induction n as [|n IH]; intros cf stk x P HP Hok; [apply h3_bad|].
+  assert (Hl : forall cf0 stk0 l P0, mono3 P0 -> Forall (stmt_ok cf0) l -> h3 cf0 stk0 P0 (iterM (index_stmt files n) l) anyv).
+  { intros cf0 stk0 l P0 HP0 Hall. apply h3_iterM; [exact HP0|]. intros y Hy. apply IH; [exact HP0|].
+    rewrite Forall_forall in Hall. apply Hall. exact Hy. }
   destruct x; cbn [index_stmt]; cbn [stmt_ok] in Hok.
-  - (* include: in a single-file workspace the root is already indexed and nothing else exists *)
-    destruct target as [f|]; [|eapply h3_seq; [exact HP|apply h3_err; exact HP|apply h3_none]].
+  - (* include *)
+    destruct target as [g|]; [|eapply h3_seq; [exact HP|apply h3_err; exact HP|apply h3_none]].
     eapply h3_bind; [exact HP|apply h3_state|]. intros x.
-    destruct (existsb (N.eqb f) (s_indexed x)) eqn:Eidx; [apply h3_none|].
-    apply (h3_pre_pure _ _ _ _ (f <> 0)).
-    { intros s _ [_ [(_ & _ & _ & _ & Hi0) _]] C. subst f.
-      assert (existsb (N.eqb 0) (s_indexed x) = true) by (apply existsb_exists; exists 0; split; [exact Hi0|reflexivity]). congruence. }
-    intros Hf.
-    assert (Hnone : nthN [root] f = None).
-    { unfold nthN. destruct (N.to_nat f) as [|k] eqn:Ek; [exfalso; apply Hf; lia|]. destruct k; reflexivity. }
-    eapply h3_seq; [hmono3|apply h3_mark_indexed|]. rewrite Hnone. apply h3_bind_lift. intros body E. discriminate.
+    destruct (existsb (N.eqb g) (s_indexed x)) eqn:Eidx; [apply h3_none|].
+    apply h3_include. intros body E. apply Hl; [apply mono3_top|apply files_ok; exact E].
   - destruct Hok as [Hc Hm]. eapply h3_seq; [exact HP|apply h3_index_value; assumption|].
     eapply h3_seq; [exact HP|apply h3_index_value; assumption|apply h3_none].
   - (* class *)
@@ -1480,7 +1551,7 @@ Proof.
     eapply h3_bind with (Q1 := fun did s => did < nrec s); [exact HP| |].
     + destruct nm as [v|].
       * cbn in Hnm. eapply h3_bind; [exact HP|apply h3_index_name_value; exact Hnm|]. intros p.
-        intros s Hinv [Hp Htok]. destruct (h3_add_record (fst p) false (snd p) top Htok s Hinv I) as (H1 & H2 & H3).
+        intros s Hinv [Hp Htok]. destruct (h3_add_record cf stk (fst p) false (snd p) top Htok s Hinv I) as (H1 & H2 & H3).
         split; [exact H1|]. split; [exact H2|]. intros y Hy. destruct (H3 y Hy) as (Ho & _). exact Ho.
       * eapply h3_seq; [exact HP|apply h3_next_anonymous|]. apply h3_bind_here. apply h3_add_anonymous_def.
     + intros did. apply h3_scoped; [hmono3|intros; hmono3| |apply h3_record_body; [hmono3|exact Hps|exact Hb]].
@@ -1491,7 +1562,7 @@ Proof.
     + destruct nm as [v|].
       * cbn in Hnm. eapply h3_bind; [exact HP|apply h3_index_name_value; exact Hnm|]. intros p.
         intros s Hinv [Hp Htok].
-        destruct (h3_add_leaf (mkLeaf LDefm (fst p) MUnknown false (snd p)) top Htok s Hinv I) as (H1 & H2 & H3).
+        destruct (h3_add_leaf cf stk (mkLeaf LDefm (fst p) MUnknown false (snd p)) top Htok s Hinv I) as (H1 & H2 & H3).
         split; [exact H1|]. split; [exact H2|]. intros y Hy. destruct (H3 y Hy) as (Ho & _). exact Ho.
       * eapply h3_seq; [exact HP|apply h3_next_anonymous|]. apply h3_bind_here. apply h3_add_leaf_nopos.
     + intros did. apply h3_scoped; [hmono3|intros; hmono3| |apply h3_index_parents; [hmono3|exact Hps]].
@@ -1499,7 +1570,7 @@ Proof.
   - (* defset *)
     destruct Hok as (Ht & Hi & Hb). apply stmts_ok_forall in Hb. apply h3_bind_here.
     eapply h3_bind; [hmono3|apply h3_index_ty; [hmono3|exact Ht]|]. intros typ.
-    eapply h3_bind; [hmono3|apply (h3_add_defset (mkLeaf LDefset (i_name i) typ false _)); exact Hi|]. intros did.
+    eapply h3_bind; [hmono3|apply (h3_add_defset _ _ (mkLeaf LDefset (i_name i) typ false _)); exact Hi|]. intros did.
     apply h3_scoped; [hmono3|intros; hmono3| |apply Hl; [hmono3|exact Hb]].
     intros s _ H. destr_conj. split; [|exact I]. match goal with Hg : GoodSym s (SyLeaf did) _ |- _ => destruct Hg as (Ho & _); exact Ho end.
   - destruct Hok as [Hi Hv]. apply h3_index_defvar; assumption.
@@ -1507,9 +1578,9 @@ Proof.
   - (* foreach *)
     destruct Hok as (Hi & Hinit & Hb). apply stmts_ok_forall in Hb. apply h3_bind_here.
     eapply h3_bind with (Q1 := anyv); [hmono3| |].
-    + eapply h3_any. apply (h3_try mty _ _ anyv). destruct init as [|v]; [hret3|].
+    + eapply h3_any. apply (h3_try _ _ mty _ _ anyv). destruct init as [|v]; [hret3|].
       eapply h3_bind; [hmono3|apply h3_index_value; [hmono3|exact Hinit]|]. intros t. apply h3_lift. intros; exact I.
-    + intros o. eapply h3_bind; [hmono3|apply (h3_add_leaf (mkLeaf LVar (i_name i) _ false _)); exact Hi|]. intros vid. cbn [lf_name].
+    + intros o. eapply h3_bind; [hmono3|apply (h3_add_leaf _ _ (mkLeaf LVar (i_name i) _ false _)); exact Hi|]. intros vid. cbn [lf_name].
       apply h3_scoped; [hmono3|intros; hmono3| |apply Hl; [hmono3|exact Hb]].
       intros s _ H. destr_conj. match goal with Hg : GoodSym s (SyLeaf vid) _ |- _ => split; [destruct Hg as (Ho & _); exact Ho|exact Hg] end.
   - (* if *)
@@ -1531,29 +1602,34 @@ Proof.
     + eapply h3_seq; [hmono3|apply h3_targs; [hmono3|exact Hta]|].
       eapply h3_seq; [hmono3|apply h3_index_parents; [hmono3|exact Hps]|apply Hl; [hmono3|exact Hb]].
 Qed.
+End Stmts.
 
 (** ---- the initial state and the workspace theorem *)
-Lemma inv3_st0 : Inv3 st0.
+Lemma inv3_st0 : Inv3 0 [] st0.
 Proof.
-  split; [apply valid_st0|]. split; [|split; [|split; [reflexivity|left; reflexivity]]].
+  split; [apply valid_st0|]. split; [|split; [|split; [reflexivity|constructor; [left; reflexivity|constructor]]]].
   - split; cbn; try apply Forall_nil. constructor; [split; [apply Forall_nil|exact I]|apply Forall_nil].
   - intros _. change (abs st0) with SM.sm_empty. apply C.coh_empty.
 Qed.
 
-Theorem index_single_file_inv : forall root perrs, Forall stmt_ok root -> Inv3 (index_ws (mkWs [root] perrs)).
+Theorem index_ws_inv : forall w,
+  (forall g body, nthN (ws_files w) g = Some body -> Forall (stmt_ok g) body) -> Inv3 0 [] (index_ws w).
 Proof.
-  intros root perrs Hok. unfold index_ws. cbn [ws_files].
-  assert (H : h3 top (iterM (index_stmt [root] (ws_fuel (mkWs [root] perrs))) root) anyv).
-  { apply h3_iterM; [apply mono3_top|]. intros x Hx. apply h3_index_stmt; [apply mono3_top|]. rewrite Forall_forall in Hok. apply Hok. exact Hx. }
+  intros w Hok. unfold index_ws. destruct (ws_files w) as [|root rest] eqn:E; [apply inv3_st0|].
+  assert (H : h3 0 [] top (iterM (index_stmt (root :: rest) (ws_fuel w)) root) anyv).
+  { apply h3_iterM; [apply mono3_top|]. intros x Hx. apply h3_index_stmt; [exact Hok|apply mono3_top|].
+    specialize (Hok 0 root eq_refl). rewrite Forall_forall in Hok. apply Hok. exact Hx. }
   apply (H st0 inv3_st0 I).
 Qed.
 
 End WithToks.
 
-(** ---- C06 for the Core fragment (single file): identifiers are tokens, the position log is single-visit *)
-Theorem c06_coherent_core : forall toks root perrs,
-  W.toks_sorted toks = true -> Forall (stmt_ok toks) root ->
-  let s := index_ws (mkWs [root] perrs) in
+(** ---- C06 for the Core fragment (any number of files): identifiers are tokens of their file, the position log is
+    single-visit *)
+Theorem c06_coherent_core : forall toks w,
+  W.toks_sorted toks = true ->
+  (forall g body, nthN (ws_files w) g = Some body -> Forall (stmt_ok toks g) body) ->
+  let s := index_ws w in
   log_fresh s = true ->
   forall f p t, SM.goto_definition (abs s) f p = SM.SOk (Some t) ->
   exists c n rs,
@@ -1565,8 +1641,8 @@ Theorem c06_coherent_core : forall toks root perrs,
        forall q, SM.fr_lo r <= q -> q < SM.fr_hi r -> SM.goto_definition (abs s) (SM.fr_file r) q = SM.SOk (Some t)) /\
     (t = c \/ In c rs).
 Proof.
-  intros toks root perrs Ht Hok s Hf f p t Hg. destruct (C.toks_sorted_sound _ Ht) as [Hne Hd].
-  pose proof (index_single_file_inv toks Hne root perrs Hok) as (_ & _ & Hc & _). fold s in Hc.
+  intros toks w Ht Hok s Hf f p t Hg. destruct (C.toks_sorted_sound _ Ht) as [Hne Hd].
+  pose proof (index_ws_inv toks Hne w Hok) as (_ & _ & Hc & _). fold s in Hc.
   exact (C.coherent_queries toks (abs s) Hd (Hc Hf) f p t Hg).
 Qed.
 
@@ -1578,7 +1654,7 @@ Definition core_ex_root : list stmt :=
     SClass (mkId (mkR 0 25 26) [66]) None [CRef (mkId (mkR 0 29 30) [65]) [] (mkR 0 29 30)]
            [ILet (mkId (mkR 0 37 38) [120]) (Val (mkR 0 41 42) [Inner SInt []])] ].
 Example core_ex_hyps :
-  W.toks_sorted core_ex_toks = true /\ Forall (stmt_ok core_ex_toks) core_ex_root /\
+  W.toks_sorted core_ex_toks = true /\ Forall (stmt_ok core_ex_toks 0) core_ex_root /\
   log_fresh (index_ws (mkWs [core_ex_root] [])) = true /\
   SM.goto_definition (abs (index_ws (mkWs [core_ex_root] []))) 0 37 = SM.SOk (Some (SM.mkFR 0 14 15)) /\
   SM.references (abs (index_ws (mkWs [core_ex_root] []))) 0 14 = SM.SOk (Some [SM.mkFR 0 37 38]).
